@@ -1,5 +1,6 @@
 import SspModel.Lemmas.Eject
 import SspModel.Lemmas.Bridge.Mrem
+import SspModel.Lemmas.Bridge.Eject
 /-!
 # C08 — the requested final black-hole mass fraction is met
 
@@ -189,6 +190,19 @@ theorem target_infeasible (l : List (ℝ × ℝ)) (MBH Mtot f : ℝ) (h : MBH / 
   | cons hd tl => obtain ⟨m, n⟩ := hd; rw [targetEjectRev_cons, if_neg (not_lt.2 h)]
 
 structure Statement : Prop where
+  /-- one step of the model's target loop is the source's own (loop condition, whole-bin test, running totals, requested fraction,
+      partial removal; the amount is still `Mrem(Δfreq, MBH, Mtot)`) -/
+  source_step : ∀ (m n MBH Mtot f : ℝ) (rest : List (ℝ × ℝ)),
+    targetEjectRev ((m, n) :: rest) MBH Mtot f =
+      if Generated.target_cond f MBH Mtot then
+        if Generated.target_whole m MBH Mtot f then
+          ((0, 0) :: (targetEjectRev rest (Generated.target_MBH m MBH) (Generated.target_Mtot m Mtot) f).1,
+           (targetEjectRev rest (Generated.target_MBH m MBH) (Generated.target_Mtot m Mtot) f).2)
+        else
+          let req := Mrem (Generated.target_dfreq (MBH / Mtot) f) MBH Mtot
+          ((Generated.target_partM m n req, Generated.target_partN m n req) :: rest, !(Scalar.beq m 0))
+      else ((m, n) :: rest, true)
+  source_amount : ∀ x : ℝ, Generated.target_mreq_is_Mrem x = 1
   closed_form : ∀ Mb Mt f : ℝ, f < 1 → Mb < Mt → 0 < Mt →
     (Mb - Generated.mrem (Mb / Mt - f) Mb Mt) / (Mt - Generated.mrem (Mb / Mt - f) Mb Mt) = f
   fraction : ∀ (l : List (ℝ × ℝ)) (MBH Mtot f : ℝ), sumFst l = MBH → 0 ≤ f → f < 1 → NonNeg l → MBH < Mtot →
@@ -205,6 +219,8 @@ structure Statement : Prop where
 /-- **C08 (partial)**: the loop-level content. Not covered here: "stars and other remnants identical to the standard
     model" and the strict-mode `ValueError` (both decided by the correspondence / sweep and by C06/C17). -/
 theorem C08_partial : Statement where
+  source_step := Bridge.gen_targetEjectRev_cons
+  source_amount := Bridge.gen_target_mreq
   closed_form := fun Mb Mt f h1 h2 h3 => (mrem_closed_form Mb Mt f h1 h2 h3).1
   fraction := fun l MBH Mtot f hs h0 h1 hl hlt hfe =>
     (target_fraction l MBH Mtot f hs h0 h1 (fun b hb => (hl b hb).1) hlt hfe).1
